@@ -462,6 +462,8 @@ func runSCIONServer(ctx context.Context, log *slog.Logger, mtrcs *scionServerMet
 			scionLayer.Path, err = scionLayer.Path.Reverse()
 			if err != nil {
 				log.LogAttrs(ctx, slog.LevelInfo, "failed to reverse path", slog.Any("error", err))
+				// no reply will be sent: drop the exchange from the timestamp store
+				updateTXTimestamp(clientID, rxt, &txt0)
 				continue
 			}
 			scionLayer.PathType = scionLayer.Path.Type()
@@ -486,6 +488,8 @@ func runSCIONServer(ctx context.Context, log *slog.Logger, mtrcs *scionServerMet
 				}
 				if !addedCookie {
 					log.LogAttrs(ctx, slog.LevelInfo, "failed to add at least one cookie")
+					// no reply will be sent: drop the exchange from the timestamp store
+					updateTXTimestamp(clientID, rxt, &txt0)
 					continue
 				}
 
@@ -551,6 +555,8 @@ func runSCIONServer(ctx context.Context, log *slog.Logger, mtrcs *scionServerMet
 			n, err = conn.WriteToUDPAddrPort(buffer.Bytes(), lastHop)
 			if err != nil || n != len(buffer.Bytes()) {
 				log.LogAttrs(ctx, slog.LevelError, "failed to write packet", slog.Any("error", err))
+				// no reply was sent: drop the exchange from the timestamp store
+				updateTXTimestamp(clientID, rxt, &txt0)
 				continue
 			}
 			txt1, id, err := udp.ReadTXTimestampByID(conn, txid)
